@@ -141,6 +141,9 @@ pub fn run(prop: &str, tier: Tier) -> (RunMeta, Acc) {
                 Part::new(pools::stride(pools::eolblank_pool(snb.clone()), 4), 300, usize::MAX, fixed()),
                 Part::new(pools::stride(p_total::havoc_pool(snb.clone()), 10), 600, usize::MAX, fixed()),
                 Part::new(ListPool { name: "corpus(hostile)".into(), cases: corpus::hostile() }, 300, usize::MAX, fixed()),
+                Part::new(ListPool { name: "corpus(range-shapes)".into(), cases: corpus::range_shapes() }, usize::MAX, usize::MAX, fixed()),
+                Part::new(pools::stride(pools::comment_pool(pools::make_bases(corpus::range_shapes())), 3), 300, usize::MAX, fixed()),
+                Part::new(pools::stride(pools::ws_pool(pools::make_bases(corpus::range_shapes())), 3), 200, usize::MAX, fixed()),
             ];
             for g in gen::all_gen_pools() {
                 parts.push(Part::new(pools::StridePool { inner: g, stride: 5 }, 250, usize::MAX, fixed()));
